@@ -458,7 +458,8 @@ def gen_C09(rnd, n, tier):
         lit = typ + rnd.choice([" ", "\n  ", "  "]).join(srcparts)
         origin = rnd.choice(["stmt", "inline", "pory", "pory_", "pair", "format", "format"])
         cfg = base_cfg(switches={"V": "A"})
-        if origin == "format" and (nparts != 1 or "\\" in parts[0] or srcparts[0] != '"%s"' % parts[0]): origin = "stmt"
+        # (format() normalises blanks: only texts that are already single-spaced come out unchanged)
+        if origin == "format" and (nparts != 1 or "\\" in parts[0] or srcparts[0] != '"%s"' % parts[0] or parts[0] != " ".join(parts[0].split())): origin = "stmt"
         if origin == "format":
             # format() of a text that fits on one line leaves it alone; the terminator is still the type's
             cfg = base_cfg(switches={"V": "A"}, fontdefault="F1", fonts={"F1": {"maxLineLength": 100000, "numLines": 2, "cursorOverlapWidth": 0, "widths": {"default": 1}}})
